@@ -1390,7 +1390,26 @@ class ForAll(BinaryOperator):
     @property
     @lru_cache(maxsize=None)
     def condition_unique_variable_ids(self) -> List[int]:
-        return [v.id_ for v in self.condition._unique_variables_.difference(self.left._unique_variables_)]
+        return [v.id_ for v in self.condition._unique_variables_.difference(self.left._unique_variables_)
+                if not isinstance(v.value, Literal)]
+
+    def _bind_free_variables_(self, values: Dict[int, HashedValue],
+                              variables: Optional[List[Variable]] = None) -> Iterable[Dict[int, HashedValue]]:
+        """
+        A row of the condition that leaves one of its free variables unbound stands for every value of that
+        variable, bind them so that the rows of different universal values can be compared.
+        """
+        if variables is None:
+            variables = [v.value for v in self.condition._unique_variables_
+                         if v.id_ in self.condition_unique_variable_ids]
+        if not variables:
+            yield values
+            return
+        var, remaining_variables = variables[0], variables[1:]
+        for var_val in var._evaluate__(copy(values)):
+            bound_values = copy(values)
+            bound_values.update(var_val)
+            yield from self._bind_free_variables_(bound_values, remaining_variables)
 
     def _evaluate__(self, sources: Optional[Dict[int, HashedValue]] = None,
                     yield_when_false: bool = False) -> Iterable[Dict[int, HashedValue]]:
@@ -1404,14 +1423,17 @@ class ForAll(BinaryOperator):
         for var_val in self.variable._evaluate__(sources):
             ctx = {**sources, **var_val}
             current = []
+            # every universal value is a separate evaluation of the condition
+            self.condition._reset_cache_()
 
             # Evaluate the condition under this particular universal value
             for condition_val in self.condition._evaluate__(ctx):
                 if self.condition._is_false_:
                     continue
-                # Keep only the non-universal variables from the condition bindings
-                filtered = {k: v for k, v in condition_val.items() if k in self.condition_unique_variable_ids}
-                current.append(filtered)
+                for bound_val in self._bind_free_variables_(condition_val):
+                    # Keep only the non-universal variables from the condition bindings
+                    filtered = {k: v for k, v in bound_val.items() if k in self.condition_unique_variable_ids}
+                    current.append(filtered)
 
             # If the condition yields no satisfying bindings for this universal value, the universal fails
             if not current:
